@@ -47,8 +47,13 @@ def run_build(case):
             except Exception as e:
                 out.append(Disc(exc_key(e, 'build.construct'), exc_detail(e) + '\nstart=%d idx=%d' % (case['start'], idx)))
                 break
-            raw = m.rawMessage
-            if raw != m.rawHeader + m.rawPadding + m.rawBody:
+            raw = getattr(m, 'rawMessage', None)
+            parts = [getattr(m, a, None) for a in ('rawHeader', 'rawPadding', 'rawBody')]
+            if not isinstance(raw, bytes) or not all(isinstance(x, bytes) for x in parts):
+                out.append(Disc('build.raw-attributes', 'rawMessage/rawHeader/rawPadding/rawBody are %r' % (
+                    [type(x).__name__ for x in [raw] + parts],)))
+                continue
+            if raw != b''.join(parts):
                 out.append(Disc('build.raw-parts', 'rawMessage != header+padding+body'))
             if len(m.rawPadding) != (-len(m.rawHeader)) % 8 or m.rawPadding.strip(b'\0'):
                 out.append(Disc('build.header-padding', repr(m.rawPadding)))
@@ -67,7 +72,7 @@ def run_build(case):
                 out.append(Disc('build.flags', 'expected %d got %d' % (flags, d['flags'])))
             if d['body_len'] != len(m.rawBody):
                 out.append(Disc('build.body-length', '%d vs %d' % (d['body_len'], len(m.rawBody))))
-            if d['serial'] != m.serial or d['serial'] == 0 or d['serial'] in seen:
+            if d['serial'] != getattr(m, 'serial', None) or d['serial'] == 0 or d['serial'] in seen:
                 out.append(Disc('build.serial', 'wire %r attr %r earlier %r' % (d['serial'], m.serial, sorted(seen))))
             seen.add(d['serial'])
             got = {R.FIELDS[c][0]: v for c, v in d['fields'].items() if c != 8}
@@ -83,8 +88,8 @@ def run_build(case):
             except Exception as e:
                 out.append(Disc(exc_key(e, 'own.parse'), exc_detail(e)))
                 continue
-            if p.serial != m.serial:
-                out.append(Disc('own.serial', '%r vs %r' % (p.serial, m.serial)))
+            if getattr(p, 'serial', None) != getattr(m, 'serial', None):
+                out.append(Disc('own.serial', '%r vs %r' % (getattr(p, 'serial', None), getattr(m, 'serial', None))))
             for k, det in S.compare_parsed(p, msg, want, 'own'):
                 out.append(Disc(k, det))
     finally:
